@@ -876,3 +876,9 @@ B("PINGRESP stops the periodic keepalive call", ["C15"],
   [(BASE, "        if self._pingReq.alarm:\n            self._pingReq.alarm.cancel()\n            self._pingReq.alarm = None\n\n\n    # ---------------------------", "        if self._pingReq.alarm:\n            self._pingReq.alarm.cancel()\n            self._pingReq.alarm = None\n        if self._pingReq.timer:\n            self._pingReq.timer.stop()\n            self._pingReq.timer = None\n\n\n    # ---------------------------")], {"C15": ["Q7"]})
 B("packet type table without SUBACK", ["C16"],
   [(BASE, "                   0x09: \"SUBACK\",  0x0A: \"UNSUBSCRIBE\"", "                   0x0A: \"UNSUBSCRIBE\"")], {"C16": ["E2"]})
+N("queue built as an explicitly unbounded deque", ["C10", "C11", "C19"], [("src/mqtt/client/factory.py", "        v = self.queuePublishTx.get(addr, deque())", "        v = self.queuePublishTx.get(addr, deque(maxlen=None))")])
+B("queue built as a bounded deque (positional maxlen)", ["C10", "C11"], [("src/mqtt/client/factory.py", "        v = self.queuePublishTx.get(addr, deque())", "        v = self.queuePublishTx.get(addr, deque([], 512))")], {"C10": ["W-FIFO"], "C11": ["X-DRAIN"]})
+N("connection hook read into a local, still called last", ["C07", "C08", "C12", "C16"], [(PS, "        if self.onMqttConnectionMade:\n            self.onMqttConnectionMade()", "        hook = self.onMqttConnectionMade\n        if hook:\n            hook()")])
+B("connection hook called before the session code", ["C07", "C08", "C12"], [(PS, "        if self._cleanStart:\n            self._purgeSession(MQTTSessionCleared())", "        if self.onMqttConnectionMade:\n            self.onMqttConnectionMade()\n        if self._cleanStart:\n            self._purgeSession(MQTTSessionCleared())")], {"C07": ["S-HOOK"], "C08": ["R-HOOK"], "C12": ["Y-HOOK"]})
+N("keepalive argument through a local alias", ["C02", "C04", "C15", "C20"], [(BASE, "        request.keepalive   = keepalive\n", "        period = keepalive\n        request.keepalive   = period\n")])
+B("keepalive falls back to the previous connection's", ["C15"], [(BASE, "        request.keepalive   = keepalive\n", "        request.keepalive   = keepalive or getattr(self, '_lastKeepalive', 0)\n        self._lastKeepalive = request.keepalive\n")], {"C15": ["Q1"]})
